@@ -47,7 +47,77 @@ func (fx *Fx) execFor(st *State, s *ast.ForStmt) {
 	if s.Post != nil {
 		lp.postF = func(t *State) { fx.exec(t, s.Post) }
 	}
+	// counting loops `for i := a; …; i++` whose body leaves i alone: a <= i at every loop head, without an
+	// annotation (what a range loop's hidden counter gives for free; keeps a rewrite of one form into the other quiet)
+	if obj, initTerm := fx.countingLoopVar(st, s); obj != nil {
+		lp.atHead = func(h *State) {
+			if cur, ok := h.vars[obj]; ok {
+				h.assume(fmt.Sprintf("(>= %s %s)", cur, initTerm))
+			}
+		}
+	}
 	fx.runLoop(st, lp)
+}
+
+func (fx *Fx) countingLoopVar(st *State, s *ast.ForStmt) (types.Object, string) {
+	as, ok := s.Init.(*ast.AssignStmt)
+	if !ok || as.Tok != token.DEFINE || len(as.Lhs) != 1 {
+		return nil, ""
+	}
+	id, ok := as.Lhs[0].(*ast.Ident)
+	if !ok {
+		return nil, ""
+	}
+	obj := fx.info.Defs[id]
+	if obj == nil || fx.c.boxedVars[obj] {
+		return nil, ""
+	}
+	if b, ok := types.Unalias(obj.Type()).Underlying().(*types.Basic); !ok || b.Info()&types.IsInteger == 0 {
+		return nil, ""
+	}
+	inc, ok := s.Post.(*ast.IncDecStmt)
+	if !ok || inc.Tok != token.INC {
+		return nil, ""
+	}
+	if pid, ok := inc.X.(*ast.Ident); !ok || fx.info.Uses[pid] != obj {
+		return nil, ""
+	}
+	touched := false
+	ast.Inspect(s.Body, func(n ast.Node) bool {
+		switch x := n.(type) {
+		case *ast.AssignStmt:
+			for _, l := range x.Lhs {
+				if lid, ok := l.(*ast.Ident); ok && fx.info.Uses[lid] == obj {
+					touched = true
+				}
+			}
+		case *ast.IncDecStmt:
+			if lid, ok := x.X.(*ast.Ident); ok && fx.info.Uses[lid] == obj {
+				touched = true
+			}
+		case *ast.UnaryExpr:
+			if x.Op == token.AND {
+				if lid, ok := x.X.(*ast.Ident); ok && fx.info.Uses[lid] == obj {
+					touched = true
+				}
+			}
+		case *ast.RangeStmt:
+			for _, e := range []ast.Expr{x.Key, x.Value} {
+				if lid, ok := e.(*ast.Ident); ok && fx.info.Uses[lid] == obj {
+					touched = true
+				}
+			}
+		}
+		return !touched
+	})
+	if touched {
+		return nil, ""
+	}
+	t, ok := st.vars[obj]
+	if !ok {
+		return nil, ""
+	}
+	return obj, t
 }
 
 func (fx *Fx) setCounter(st *State, lp *loopParts, term string) {
@@ -314,7 +384,10 @@ func (fx *Fx) runLoop(st *State, lp *loopParts) {
 	}
 	if ms.emits || ms.opaque || ms.all {
 		head.havocLog()
+	}
+	if ms.fncall || ms.all {
 		head.havocHeap("NC")
+		head.havocHeap("NCT")
 	}
 	if ms.allocs || ms.all {
 		head.havocAlloc()
@@ -538,7 +611,7 @@ func (fx *Fx) runLoop(st *State, lp *loopParts) {
 					if u, ok := unparen(rx).(*ast.UnaryExpr); ok {
 						if call, ok := unparen(u.X).(*ast.CallExpr); ok {
 							if se, ok := unparen(call.Fun).(*ast.SelectorExpr); ok && se.Sel.Name == "Done" {
-								if id, ok := unparen(se.X).(*ast.Ident); ok && id.Name == lp.spec.Cancels {
+								if id, ok := unparen(se.X).(*ast.Ident); ok && id.Name == fx.renamed(lp.spec.Cancels) {
 									has = "true"
 								}
 							}
